@@ -77,7 +77,7 @@ pub open spec fn last_opt(st: Comps) -> Option<Component> { if st.len() == 0 { N
             cnt == path_buf.comps().len(),
             k == 0 ==> path_buf.comps().len() == 0,
             prev == last_opt(path_buf.comps()),
-            stack_ok(path_buf.comps()),
+            stack_ok(path_buf.comps()), path_buf.canonical(),
             fold(path_buf.comps(), __it1.rest()) == fold(Seq::empty(), all),
             cnt <= k,
         ensures
@@ -90,6 +90,7 @@ pub open spec fn last_opt(st: Comps) -> Option<Component> { if st.len() == 0 { N
 pub fn clean(path: &PathBuf) -> (out: PathBuf)
     requires path.comps().len() < usize::MAX,       // a path has fewer than usize::MAX components (it is held in memory)
     ensures out.comps() == spec_clean(path.comps()),     //@ clause clean.post.go_path_clean [C14,C05]
+            out.canonical(),                             //@ clause clean.result_string_is_canonical [C14]
 //@ body
 
 // ---- consequences of the specification (induction over the fold; spec-level lemmas)
